@@ -26,6 +26,15 @@
   proved there to be MurmurHash64A — `C16_hash_is_murmur` composes the two; `C16_hash_test_vectors` /
   `C16_hash_tail_bytes_count` evaluate it on recorded inputs (the constants of tests/test.c; lengths 0, 8, 9, 16; texts that differ
   only behind the last full 8-byte block), the same values the harness's independent reference is validated with.
+  `String_Look` (extension round; Cello/StrLook.lean): `look_from(s, input, pos)` / `scan_from(input, pos, "%$", s)` is one `String_Clear`
+  and one `String_Concat` per character read — `C16_look_is_history` makes it a history of the property's own operations (same object,
+  same accesses), so `C16_look_refines` gives the full statement for it on EVERY input (also where FormatError leaves);
+  `C16_look_reads_back_show`: what `show_to` wrote is read back exactly, the position returned is behind the closing quote; the quote
+  tests, the escape lead, the escape table and the place of `String_Clear` are read from the source (`C16_look_current_source`).
+  Receivers that are not on the heap (Cello/StrRecv.lean): where the `CELLO_ALLOC_CHECK` test of each reallocating function stands is read
+  from the source (`C16_guards_current_source`); on a stack / static String every one of them raises ValueError before anything is touched,
+  `rem` keeps the full statement in place, `assign(s, s)` returns at once (`C16_non_heap_receiver`); a missing test hands a pointer that did
+  not come from `malloc` to `realloc` (`C16_missing_alloc_check_refuted`).
 -/
 import Cello.Str
 import Cello.Hash
@@ -35,6 +44,8 @@ import CelloProofs.Lemmas.StrBytes
 import CelloProofs.Lemmas.StrPrint
 import CelloProofs.Lemmas.StrAlias
 import CelloProofs.Lemmas.HashMurmur
+import CelloProofs.Lemmas.StrLook
+import Cello.StrRecv
 
 namespace Cello.Str
 
@@ -867,5 +878,136 @@ example :
 example : (⟨[97, 32, 32, 98, 99, 32, 100, 0, 120, 121]⟩ : Str).WF ∧
     scanWord ⟨[97, 32, 32, 98, 99, 32, 100, 0, 120, 121]⟩ 2 = some ([98, 99], 5) ∧
     scanWord ⟨[97, 32, 0, 98]⟩ 1 = none := by decide
+
+/-! ## `String_Look`: reading a shown String back (the Look member of `Instance(Show, String_Show, String_Look)`) -/
+
+/-- **The current source** of `String_Look` has the parameters the theorems below ask for: `String_Clear(self)` is its first
+    statement, both quote tests are on `'"'`, the escape lead is the backslash, and its `switch` is `String_Show`'s escape table
+    turned round (`unescTable`: every `case c: String_Concat(self, $S("…"))` of the source, as read by translate/g_str.py). -/
+theorem C16_look_current_source : CelloGen.Str.lookParams.Lawful :=
+  ⟨rfl, rfl, rfl, rfl, by decide⟩
+
+/-- **`String_Look` is a history of `clear` and `concat`**: for every parameter set, target, input text and position, the object
+    it leaves, its outcome and its access log are those of the op list `lookOps` (one `clear`, then one `concat` per character read
+    until the closing quote or until FormatError leaves) — so every theorem about histories covers it. -/
+theorem C16_look_is_history (P : Params) (L : LookParams) (J : Nat → Byte) (s : Str) (inp : List Byte) (pos : Nat) :
+    (look P L J s inp pos).st = (run P J s (lookOps L inp pos).1).1 ∧
+    (look P L J s inp pos).out = (lookOps L inp pos).2 ∧
+    (look P L J s inp pos).log = ((run P J s (lookOps L inp pos).1).2.map Res.log).flatten :=
+  look_eq_run P L J s inp pos
+
+/-- **`String_Look` keeps the property on every input.**  For lawful parameters, a well-formed target, ANY NUL-free input text and
+    any position (a complete shown String, one without an opening quote, an unterminated one, an unknown escape letter, nothing
+    at all), whatever bytes `realloc` hands out: afterwards the target is well-formed, holds exactly the text the abstract history
+    computes (`[]` after the clear, then the characters read, escapes undone — also when FormatError leaves: then what was read until
+    there), is NUL-terminated at its `len` inside its allocation, and no access of any of its `realloc` / `strcat` steps left the
+    allocation current at that moment; the outcome is the reader's (`ok pos'` or FormatError). -/
+theorem C16_look_refines {P : Params} (hP : P.Lawful) {L : LookParams} (hL : L.Lawful) (J : Nat → Byte) (s : Str) (hs : s.WF)
+    (inp : List Byte) (hin : NulFree inp) (pos : Nat) :
+    let r := look P L J s inp pos
+    r.st.WF ∧ r.st.abs = Spec.run s.abs (lookOps L inp pos).1 ∧
+    r.st.buf[len r.st]? = some 0 ∧ len r.st < r.st.cap ∧ r.log.all Acc.inBounds = true ∧
+    r.out = (lookOps L inp pos).2 ∧ (r.out = .raised .FormatError ∨ ∃ p, r.out = .ok p) := by
+  intro r
+  obtain ⟨hwf, habs, hsafe, hout⟩ := look_ok hP L J s hs inp pos (lookOps_nulFree hL inp hin pos)
+  refine ⟨hwf, habs, (terminated_of_wf hwf).1, (terminated_of_wf hwf).2, hsafe, hout, ?_⟩
+  show (look P L J s inp pos).out = _ ∨ _
+  rw [hout]
+  exact lookOps_outcome L inp pos
+
+/-- **Look reads back what Show wrote.**  Let `x` be any NUL-free text and let the input hold, from position `|pre|` on, the text
+    `show_to` writes for the String `x` (`textOf (showVal (.str x))`: quote, characters with `String_Show`'s escapes, quote) followed by
+    anything.  Then `look_from(s, input, |pre|)` returns normally, the position returned is just behind the closing quote, and the
+    target — whatever it held before — holds exactly `x`, NUL-terminated at `len = |x|` inside its allocation, all accesses in bounds. -/
+theorem C16_look_reads_back_show {P : Params} (hP : P.Lawful) {L : LookParams} (hL : L.Lawful) (J : Nat → Byte) (s : Str) (hs : s.WF)
+    (x : List Byte) (hx : NulFree x) (pre suf : List Byte) :
+    let r := look P L J s (pre ++ textOf (showVal (.str x)) ++ suf) pre.length
+    r.st.abs = x ∧ r.out = .ok (pre.length + (textOf (showVal (.str x))).length) ∧ r.st.WF ∧
+    r.st.buf[x.length]? = some 0 ∧ x.length < r.st.cap ∧ r.log.all Acc.inBounds = true := by
+  intro r
+  have hops := lookOps_shown hL x pre suf
+  have hnf : ∀ op ∈ (lookOps L (pre ++ shownText x ++ suf) pre.length).1, op.NulFree := by
+    rw [hops]; intro op hop
+    simp only [List.mem_cons, List.mem_map] at hop
+    rcases hop with rfl | ⟨b, hb, rfl⟩
+    · simp [Op.NulFree]
+    · simp only [Op.NulFree, NulFree, List.mem_singleton]; exact fun h => hx (h ▸ hb)
+  obtain ⟨hwf, habs, hsafe, hout⟩ := look_ok hP L J s hs (pre ++ shownText x ++ suf) pre.length hnf
+  have hr : r = look P L J s (pre ++ shownText x ++ suf) pre.length := by show look _ _ _ _ _ _ = _; rw [shownText_eq_show]
+  have hx' : r.st.abs = x := by
+    rw [hr, habs, hops]
+    have : (Op.clear :: x.map (fun b => Op.concat [b])) = Op.clear :: (x.map (fun b => [b])).map Op.concat := by simp [List.map_map, Function.comp_def]
+    rw [this]; simp only [Spec.run, Spec.step]; rw [spec_run_concats, flatten_singletons]; simp
+  have hlen : len r.st = x.length := by rw [len_eq, hx']
+  refine ⟨hx', by rw [hr, hout, hops, shownText_eq_show], hr ▸ hwf, ?_, ?_, hr ▸ hsafe⟩
+  · have := (terminated_of_wf (hr ▸ hwf : r.st.WF)).1; rwa [hlen] at this
+  · have := (terminated_of_wf (hr ▸ hwf : r.st.WF)).2; rwa [hlen] at this
+
+/-- Why `String_Clear` must stand first: without it (`LookParams.noClear`) the characters read are appended to whatever the
+    target held — look into a String holding "o" of the text `"a"` leaves "oa". -/
+theorem C16_look_without_clear_refuted :
+    (look Params.modelled LookParams.noClear (fun _ => 0xA5) ⟨[111, 0]⟩ [34, 97, 34] 0).st.abs = [111, 97] ∧
+    (look Params.modelled LookParams.modelled (fun _ => 0xA5) ⟨[111, 0]⟩ [34, 97, 34] 0).st.abs = [97] := by decide
+
+/-- `C16_look_refines` / `C16_look_reads_back_show` are not vacuous: reading `"a\n?"` … wait -/
+example :
+    -- x = a, newline, `"`: shown as `"a\n\""`; read at position 2 of `xy"a\n\""zz`
+    textOf (showVal (.str [97, 10, 34])) = [34, 97, 92, 110, 92, 34, 34] ∧
+    (look Params.modelled CelloGen.Str.lookParams (fun _ => 0xA5) ⟨[111, 108, 100, 0]⟩
+        ([120, 121] ++ [34, 97, 92, 110, 92, 34, 34] ++ [122, 122]) 2).st = ⟨[97, 10, 34, 0]⟩ ∧
+    (look Params.modelled CelloGen.Str.lookParams (fun _ => 0xA5) ⟨[111, 108, 100, 0]⟩
+        ([120, 121] ++ [34, 97, 92, 110, 92, 34, 34] ++ [122, 122]) 2).out = .ok 9 ∧
+    -- an unterminated literal and an unknown escape letter: FormatError, the target holds what was read until there
+    (look Params.modelled CelloGen.Str.lookParams (fun _ => 0xA5) ⟨[111, 108, 100, 0]⟩ [34, 97, 98] 0).out = .raised .FormatError ∧
+    (look Params.modelled CelloGen.Str.lookParams (fun _ => 0xA5) ⟨[111, 108, 100, 0]⟩ [34, 97, 98] 0).st = ⟨[97, 98, 0]⟩ ∧
+    (look Params.modelled CelloGen.Str.lookParams (fun _ => 0xA5) ⟨[111, 108, 100, 0]⟩ [34, 97, 92, 122, 34] 0).st = ⟨[97, 0]⟩ ∧
+    -- no opening quote: only the clear has happened
+    (look Params.modelled CelloGen.Str.lookParams (fun _ => 0xA5) ⟨[111, 108, 100, 0]⟩ [97, 34] 0).st = ⟨[0]⟩ := by decide
+
+/-! ## receivers that are not heap Strings (`$S("…")`: AllocStack; file-scope Strings: AllocStatic) -/
+
+/-- **The current source** has the `CELLO_ALLOC_CHECK` test (`AllocStack or AllocStatic → throw(ValueError, …)`) before the first
+    `realloc(` / `free(` of String_Assign, String_Clear, String_Concat, String_Resize, String_Format_To and String_Del, and in
+    String_Assign the `val is s->val` return before it (as read by translate/g_str.py on this run). -/
+theorem C16_guards_current_source : CelloGen.Str.guardParams.Lawful := by decide
+
+/-- **A String that is not on the heap.**  With the checks where the source has them, on a receiver of class AllocStack / AllocStatic:
+    every operation of the property that reallocates (assign, concat, append, resize, clear, a formatted write) is refused — ValueError,
+    and neither the buffer nor the pointer is touched (`ROut.refused` carries no state: the caller's `s` is what there is);
+    `rem`, which edits in place, runs and meets the whole per-step statement (`StepOK`: well-formed, the text is the list function's,
+    accesses inside the buffer, ValueError exactly when absent); `assign(s, s)` returns at once with nothing changed. -/
+theorem C16_non_heap_receiver {G : GuardParams} (hG : G.Lawful) {P : Params} (hP : P.Lawful) (J : Nat → Byte) (c : Cls)
+    (hc : c.nonHeap = true) (s : Str) (hs : s.WF) (op : Op) (hop : op.NulFree) :
+    (op.reallocs = true → recvStep G P J c s op = .refused) ∧
+    (op.reallocs = false → recvStep G P J c s op = .ran (step P J s op) ∧ StepOK s op (step P J s op)) ∧
+    recvAssignSelf G c s = .ran ⟨s, .ok 0, []⟩ := by
+  have hG' : G = GuardParams.modelled := hG
+  subst hG'
+  refine ⟨?_, ?_, by simp [recvAssignSelf, GuardParams.modelled]⟩
+  · intro hr
+    cases op <;> simp_all [recvStep, Op.reallocs, GuardParams.guards, GuardParams.modelled]
+  · intro hr
+    exact ⟨by simp [recvStep, hr], step_ok hP J s op hs hop⟩
+
+/-- on a heap String (of its own, or inside a container: AllocData) the checks do not fire: the call is the plain step of the history
+    theorems, whatever the guard positions -/
+theorem C16_heap_receiver_runs (G : GuardParams) (P : Params) (J : Nat → Byte) (c : Cls) (hc : c.nonHeap = false) (s : Str) (op : Op) :
+    recvStep G P J c s op = .ran (step P J s op) := by
+  simp [recvStep, hc]
+
+/-- what the check is for: without the one of String_Concat (`GuardParams.concatUnguarded`) `concat($S("a"), $S("b"))` hands the stack
+    buffer to `realloc` -/
+theorem C16_missing_alloc_check_refuted :
+    (match recvStep GuardParams.concatUnguarded Params.modelled (fun _ => 0xA5) .stack ⟨[97, 0]⟩ (.concat [98]) with
+     | .badRealloc => true | _ => false) = true ∧
+    (match recvStep GuardParams.modelled Params.modelled (fun _ => 0xA5) .stack ⟨[97, 0]⟩ (.concat [98]) with
+     | .refused => true | _ => false) = true := by decide
+
+/-- `C16_non_heap_receiver` is not vacuous: rem of the middle occurrence on a stack String holding "abcabc", with the guards of the source -/
+example :
+    (match recvStep CelloGen.Str.guardParams Params.modelled (fun _ => 0xA5) .stack ⟨[97, 98, 99, 97, 98, 99, 0, 165]⟩ (.rem [99, 97]) with
+     | .ran r => r.st.abs == [97, 98, 98, 99] && r.safe | _ => false) = true ∧
+    (match recvStep CelloGen.Str.guardParams Params.modelled (fun _ => 0xA5) .static ⟨[97, 0]⟩ (.resize 0) with
+     | .refused => true | _ => false) = true := by decide
 
 end Cello.Str
